@@ -4,11 +4,60 @@
    While an oracle entry runs it may print "?<sx>" and then reads one "<sx>" line. *)
 open BinNums
 open Sx
+(* extracted Coq modules named String/List/Char would shadow the standard ones (also for the
+   s.[i] sugar): rebind them *)
+module String = Stdlib.String
+module List = Stdlib.List
+module Char = Stdlib.Char
+module Buffer = Stdlib.Buffer
+module Array = Stdlib.Array
+module Printf = Stdlib.Printf
+module Bytes = Stdlib.Bytes
 
 let rec pos_of_int i = if i = 1 then Coq_xH else if i land 1 = 1 then Coq_xI (pos_of_int (i lsr 1)) else Coq_xO (pos_of_int (i lsr 1))
 let n_of_int i = if i = 0 then N0 else Npos (pos_of_int i)
 let rec int_of_pos = function Coq_xH -> 1 | Coq_xO p -> 2 * int_of_pos p | Coq_xI p -> 2 * int_of_pos p + 1
 let int_of_n = function N0 -> 0 | Npos p -> int_of_pos p
+
+(* arbitrary-size decimal text <-> N (numbers beyond 62 bits), via digit-array arithmetic *)
+let n_of_decimal (str : string) : coq_N =
+  if String.length str <= 17 then n_of_int (int_of_string str) else begin
+    let d = Array.init (String.length str) (fun i -> Char.code str.[i] - 48) in
+    let len = Array.length d in
+    let start = ref 0 in
+    let bits = ref [] in
+    while !start < len do
+      let rem = ref 0 in
+      for i = !start to len - 1 do
+        let cur = !rem * 10 + d.(i) in
+        d.(i) <- cur / 2; rem := cur mod 2
+      done;
+      bits := !rem :: !bits;
+      while !start < len && d.(!start) = 0 do incr start done
+    done;
+    let rec build acc = function
+      | [] -> acc
+      | b :: r -> build (match acc with
+          | None -> if b = 1 then Some Coq_xH else None
+          | Some p -> Some (if b = 1 then Coq_xI p else Coq_xO p)) r in
+    match build None !bits with None -> N0 | Some p -> Npos p
+  end
+
+let decimal_of_n (n : coq_N) : string =
+  let rec nbits p k = match p with Coq_xH -> k + 1 | Coq_xO q | Coq_xI q -> nbits q (k + 1) in
+  match n with
+  | N0 -> "0"
+  | Npos p when nbits p 0 <= 60 -> string_of_int (int_of_pos p)
+  | Npos p ->
+    let rec bits p acc = match p with
+      | Coq_xH -> 1 :: acc | Coq_xO q -> bits q (0 :: acc) | Coq_xI q -> bits q (1 :: acc) in
+    let bl = bits p [] in
+    let digits = ref [0] in
+    List.iter (fun b ->
+        let carry = ref b in
+        digits := List.map (fun dg -> let v = dg * 2 + !carry in carry := v / 10; v mod 10) !digits;
+        if !carry > 0 then digits := !digits @ [!carry]) bl;
+    String.concat "" (List.rev_map string_of_int !digits)
 
 let byte_tab = Stdlib.Array.init 256 n_of_int
 
@@ -28,7 +77,7 @@ let parse (s : string) : sx =
     | 'N' ->
       incr pos; let st = !pos in
       while !pos < n && s.[!pos] >= '0' && s.[!pos] <= '9' do incr pos done;
-      SN (n_of_int (int_of_string (Stdlib.String.sub s st (!pos - st))))
+      SN (n_of_decimal (Stdlib.String.sub s st (!pos - st)))
     | 'B' ->
       incr pos; let st = !pos in
       while !pos < n && s.[!pos] <> ' ' && s.[!pos] <> ')' do incr pos done;
@@ -47,7 +96,7 @@ let parse (s : string) : sx =
   in item ()
 
 let rec print_sx buf = function
-  | SN n -> Stdlib.Buffer.add_char buf 'N'; Stdlib.Buffer.add_string buf (string_of_int (int_of_n n))
+  | SN n -> Stdlib.Buffer.add_char buf 'N'; Stdlib.Buffer.add_string buf (decimal_of_n n)
   | SB b -> Stdlib.Buffer.add_char buf 'B';
     Stdlib.List.iter (fun x -> Stdlib.Buffer.add_string buf (Stdlib.Printf.sprintf "%02x" (int_of_n x))) b
   | SL l -> Stdlib.Buffer.add_char buf '(';
